@@ -363,6 +363,7 @@ pub fn run(ctx: &Ctx) {
     let mut completed = 0u64;
     let mut i = ctx.shard as u64;
     let mut all_done = true;
+    let mut stray_reported = false;
     while i < corpus_size {
         let (case, da, label) = corpus_case(ctx.seed, i);
         let conv_id = (ctx.seed << 16) | i;
@@ -384,6 +385,22 @@ pub fn run(ctx: &Ctx) {
                 finished = false;
                 break;
             }
+        }
+        // a request of an abandoned connection whose answering never returned (it is answered by
+        // the harness's default handler on its own thread once its conversation is over)
+        let stuck = crate::env::strays_stuck(std::time::Duration::from_millis(2500));
+        if !stuck.is_empty() && !stray_reported {
+            stray_reported = true;
+            ctx.rep.violation(Violation {
+                signature: "C15/abandoned-connection/handler-blocked-stall".into(),
+                what: format!(
+                    "answering a request of a connection the client had already left did not return within 2.5 s ({} such calls are still running)",
+                    stuck.len()
+                ),
+                detail: J::obj().set("targets", J::A(stuck.iter().take(8).map(J::s).collect())).set("conversation", J::s(&label)),
+                case_seed: conv_id,
+                mode: "cut:0:HalfClose".into(),
+            });
         }
         if finished {
             completed += 1;
